@@ -69,6 +69,7 @@ def closure_body(prog, parent_path, idx_path):
 
 
 def check(env, rep, tier):
+    include(rep, env, tier, "c14", ("C14.2",), "C15.7", "'since its last acknowledgement or registration': registering again stores a fresh observer (count 0) on every path")
     configs = ["default"] if tier == "quick" else ["default", "nodefault"]
     rep.configs = configs
     for cfg in configs:
